@@ -108,6 +108,7 @@ def run(ctx):
     ctx.explanation = EXPL
     ctx.not_decided = NOT
     prog = ctx.prog("infinity_pool")
+    ctx.rule("R10.checked-entry-points-check", "every insert entry point of the opaque pools that is not `_unchecked` verifies T's layout against the pool's (itself, or by forwarding to a checked entry point)", floor=6)
     ctx.rule("R1.storage-immobility", "alloc only in Slab::new, dealloc only in Slab::drop, no realloc; first_slot_ptr only set in the aggregate built by Slab::new", floor=4)
     ctx.rule("R2.slab-vector", "every method called on RawOpaquePool::slabs is in the order-preserving set; push/extend/truncate only in their sanctioned functions", floor=8)
     ctx.rule("R2.layout-map", "the blind pools' BTreeMap of inner pools is never shrunk (no remove/clear/retain/pop/drain/append/split_off)", floor=3)
@@ -370,6 +371,24 @@ def run(ctx):
 
     routing_rules(ctx, prog)
     vacancy_block_rules(ctx, prog)
+    shared_rules(ctx, prog)
+
+
+def shared_rules(ctx, prog):
+    # ---------------- rules shared with the sibling properties anchored in the same functions
+    ctx.import_rules("C02", {
+        "R3.double-remove-guard": "a second removal that updates the free list hands the slot of a live object to the next insert (address no longer exclusive)",
+        "R4.slab-count": "a count / free-list write made before the user initialiser survives its panic; the slab later hands out a slot index past its allocation or over a live object",
+        "R5.vacancy": "a vacancy bit that stays set on a full slab sends the next insert to slot index == capacity, outside the slab allocation",
+        "R11.lowest-vacancy-cache": "a stale vacancy cache sends an insert into a full slab",
+        "R12.counts-are-not-positions": "a slab bound derived from an object count drops a live object's storage",
+        "R14.free-list-head": "a free-list head that drops entries lets the list run out while count still promises room: the next insert lands on slot index == capacity, outside the slab",
+    })
+    ctx.import_rules("C04", {
+        "R4.restore-before-destroy": "bookkeeping done after (or undone around) the destructor leaves the free list pointing at a live or foreign slot when the destructor panics or re-enters",
+    })
+    checked_entry_points(ctx, prog)
+
 
 
 def _names(sl):
@@ -528,11 +547,32 @@ def vacancy_block_rules(ctx, prog):
     if n == 0:
         ctx.missing("R9.vacancy-block-writes", "writes to vacancy-map blocks")
 
-    # ---------------- rules shared with the sibling properties anchored in the same functions
-    ctx.import_rules("C02", {
-        "R3.double-remove-guard": "a second removal that updates the free list hands the slot of a live object to the next insert (address no longer exclusive)",
-        "R4.slab-count": "a count / free-list write made before the user initialiser survives its panic; the slab later hands out a slot index past its allocation or over a live object",
-        "R5.vacancy": "a vacancy bit that stays set on a full slab sends the next insert to slot index == capacity, outside the slab allocation",
-        "R11.lowest-vacancy-cache": "a stale vacancy cache sends an insert into a full slab",
-        "R12.counts-are-not-positions": "a slab bound derived from an object count drops a live object's storage",
-    })
+def checked_entry_points(ctx, prog):
+    """The opaque pools choose their object layout at run time: every entry point without `_unchecked` in its name verifies that
+    T's layout is the pool's layout before the object is placed - by itself (an `object_layout()` comparison that dominates the
+    call) or by calling a checked entry point of the wrapped pool. A checked wrapper that forwards to `*_unchecked` places a wider
+    or more aligned T over the neighbouring slot."""
+    RID = "R10.checked-entry-points-check"
+    n = 0
+    for b in prog.bodies:
+        if b.is_closure or "::tests" in b.key or not b.key.startswith("infinity_pool::opaque::pool_"):
+            continue
+        if not b.name.startswith("insert") or b.name.endswith("_unchecked"):
+            continue
+        unchecked = [(bb, t) for bb, t in b.calls() if (t["callee"].get("method") or "").startswith("insert") and
+                     (t["callee"].get("method") or "").endswith("_unchecked") and "pool" in callee_key(t["callee"]).lower()]
+        for c in prog.closures_of(b):
+            unchecked += [(None, t) for _bb, t in c.calls() if (t["callee"].get("method") or "").startswith("insert") and
+                          (t["callee"].get("method") or "").endswith("_unchecked") and "pool" in callee_key(t["callee"]).lower()]
+        n += 1
+        ctx.fn(b)
+        if not unchecked:
+            ctx.ob(RID, b.key.replace("infinity_pool::opaque::", ""), True, b.loc(), "forwards to a checked entry point (no *_unchecked call)")
+            continue
+        lay = [(bb, t) for bb, t in b.calls() if t["callee"].get("method") == "object_layout"]
+        dom = b.dominators(unwind=False)
+        ok = bool(lay) and all(ub is None or any(lb in dom[ub] for lb, _ in lay) for ub, _t in unchecked)
+        ctx.ob(RID, b.key.replace("infinity_pool::opaque::", ""), ok, b.loc(),
+               f"calls {sorted({t['callee'].get('method') for _b, t in unchecked})}; own layout comparison (object_layout) dominating it: {ok}")
+    if n == 0:
+        ctx.missing(RID, "checked insert entry points of the opaque pools")
